@@ -92,7 +92,7 @@ def replay_access_case(case):
     h = zlib.crc32(repr(shape).encode()) + seed
     configs = rec["configs"]
     if not case.get("all_configs"):
-        configs = [c for i, c in enumerate(configs) if (i + h) % 4 == 0] or configs[:1]
+        configs = [c for i, c in enumerate(configs) if (i + h) % 5 == 0] or configs[:1]
     tmp = tempfile.mkdtemp(prefix="c03-", dir=SCRATCH)
     try:
         fpath = os.path.join(tmp, "f.tdms")
@@ -101,7 +101,16 @@ def replay_access_case(case):
         for cfg in configs:
             mm = tmp if cfg["memmap"] else None
             for mode in ("eager", "lazy"):
-                src = fpath if cfg["source"] == "path" else io.BytesIO(e.data)
+                import pathlib
+                opened = None
+                if cfg["source"] == "path":
+                    src = fpath
+                elif cfg["source"] == "pathlib":
+                    src = pathlib.Path(fpath)
+                elif cfg["source"] == "fileobj":
+                    src = opened = open(fpath, "rb")          # a real file object supplied by the caller
+                else:
+                    src = io.BytesIO(e.data)
                 try:
                     f = (TdmsFile.read if mode == "eager" else TdmsFile.open)(src, raw_timestamps=cfg["rawts"],
                                                                               memmap_dir=mm)
@@ -145,6 +154,10 @@ def replay_access_case(case):
                 if mode == "lazy":
                     f.close()
                 del f
+                if opened is not None:
+                    if opened.closed:
+                        fails.append(({"kind": "caller-file-closed", "mode": mode}, {"shape": shape, "cfg": cfg}))
+                    opened.close()
     finally:
         shutil.rmtree(tmp, ignore_errors=True)
     key = zlib.crc32(repr(shape).encode())
